@@ -375,6 +375,18 @@ class HistogramBase(abc.ABC):
         if new_dtype != self.dtype:
             self.set_dtype(new_dtype)
 
+    def _adopt_values(self, values: np.ndarray) -> np.ndarray:
+        """Bring newly assigned bin contents / errors and the reported dtype in line.
+
+        Values of another element type promote the histogram (as an operation
+        with such an operand would) instead of leaving `dtype` out of date.
+        """
+        dtype = getattr(self, "_dtype", None)
+        if dtype is None or values.dtype == dtype:
+            return values
+        self._coerce_dtype(values.dtype)
+        return values.astype(self._dtype)
+
     @property
     def bin_count(self) -> int:
         """Total number of bins."""
@@ -396,7 +408,7 @@ class HistogramBase(abc.ABC):
                 warnings.warn("Negative frequencies in the histogram.")
             else:
                 raise ValueError("Cannot have negative frequencies.")
-        self._frequencies = frequencies
+        self._frequencies = self._adopt_values(frequencies)
 
     @property
     def densities(self) -> np.ndarray:
@@ -447,7 +459,7 @@ class HistogramBase(abc.ABC):
             raise ValueError("Square errors must have same dimension as bins.")
         if np.any(array < 0):
             raise ValueError("Cannot have negative square errors.")
-        self._errors2 = array
+        self._errors2 = self._adopt_values(array)
 
     @property
     def errors(self) -> np.ndarray:
